@@ -20,6 +20,7 @@ type gen struct {
 	allNote bool // this batch: every entry without id
 	unser   bool // this input may call the methods whose result cannot be serialised
 	valid   bool // this input may call the methods with struct-typed, validated parameters (valid_gen.go)
+	scalar  bool // this input may call the methods with narrow / named scalar parameters (scalar_gen.go)
 	vbytes  int  // bytes of struct-typed parameter values produced for this input so far
 	idPool  int
 }
@@ -126,6 +127,9 @@ func (g *gen) value(depth int) string {
 }
 
 func (g *gen) good(t ptype) string {
+	if isS(t) {
+		return g.sgood(t)
+	}
 	if isV(t) {
 		return g.vgood(t)
 	}
@@ -159,6 +163,9 @@ func (g *gen) good(t ptype) string {
 }
 
 func (g *gen) wrong(t ptype) string {
+	if isS(t) {
+		return g.swrong(t)
+	}
 	if isV(t) {
 		return g.vwrong(t)
 	}
@@ -379,6 +386,9 @@ func (g *gen) request() string {
 			if g.vbytes > 900 && (m.name == "vsimulate" || m.name == "vnode") {
 				m = &vMethodTable[0] // inputs are capped at 4 KiB: no second large value
 			}
+		}
+		if g.scalar && g.t.Chance("scalar_method", 4, 5) {
+			m = &sMethodTable[g.t.Draw("smethod", len(sMethodTable))]
 		}
 		if g.unser && g.t.Chance("unser_method", 1, 3) {
 			m = &methodTable[nPlainMethods+g.t.Draw("unser_which", len(methodTable)-nPlainMethods)]
